@@ -316,27 +316,52 @@ Example ex_emit_reported_and_invisible :
   proj [s2l "e9"] (snd (fst instr)) = snd (fst plain) /\ fst (fst instr) = fst (fst plain).
 Proof. vm_compute. repeat split; reflexivity. Qed.
 
-(* the premise [encodable] of trigger_event_transparent is necessary too (FINDING, notes/C18.md):
-   the event_received report nests the event's arguments in a tuple, which the packet encoder does not
-   treat as binary; with an admin connected an incoming event that carries bytes makes the report
-   raise TypeError BEFORE the original _trigger_event runs: the application handler is never invoked *)
+(* events that carry bytes (fixed by 34a4987; was finding binary-event-dropped-while-admin-connected):
+   the event_received report now holds the event and its arguments in a LIST, which the packet
+   constructor descends into: the report is a BINARY_EVENT with the bytes as attachments, it is
+   encodable, the admin receives it, and the application handler runs exactly as on the plain server *)
 Definition ex_app_cfg : cfg :=
   mkCfg [(s2l "/", [(s2l "ev", 1)])] [] [(1, mkBehav None [] (Returns (PStr (s2l "ok"))))] None false true.
 Definition ex_state2 : srv :=
   let m0 := fst (mgr_connect mgr_init (s2l "e0") (s2l "/") (s2l "S0")) in
   let m1 := fst (mgr_connect m0 (s2l "e9") ex_adm (s2l "A0")) in
   mkSrv m1 [(s2l "e0", PDict [])] [] [] [s2l "e0"; s2l "e9"] 2.
+Definition ex_bin_args : list pv := [PStr (s2l "S0"); PBytes [1; 2]; PDict [(PStr (s2l "k"), PList [PBytes [255]])]].
+Definition ex_stamp : pv := PStr (s2l "t").
+Definition ex_ser : str -> str -> pv := fun _ _ => PNone.
 
-Theorem binary_event_dropped_refuted :
-  exists args,
-    adm_isolated ex_adm [s2l "e9"] ex_state2 /\
-    trigger_event ex_app_cfg (PStr (s2l "ev")) (s2l "/") args ex_state2
-      = (ex_state2, [Call 1 args], Ok (Some (PStr (s2l "ok")))) /\
-    w_trigger_event ex_app_cfg ex_adm (PStr (s2l "t")) (fun _ _ => PNone) (PStr (s2l "ev")) (s2l "/") args ex_state2
-      = (ex_state2, [], Err TypeError).
+Lemma ex_isolated2 : adm_isolated ex_adm [s2l "e9"] ex_state2.
 Proof.
-  exists [PStr (s2l "S0"); PBytes [1; 2]]. split.
-  - intros b sid eio Hb Hin. vm_compute in Hb. inversion Hb; subst b.
-    destruct Hin as [H|[]]. inversion H; subst. reflexivity.
-  - split; vm_compute; reflexivity.
+  intros b sid eio Hb Hin. vm_compute in Hb. inversion Hb; subst b.
+  destruct Hin as [H|[]]. inversion H; subst. reflexivity.
+Qed.
+
+Lemma ex_binary_report_encodable :
+  encodable ex_app_cfg ex_adm
+    (fst (trigger_report ex_stamp ex_ser (PStr (s2l "ev")) (s2l "/") ex_bin_args))
+    (snd (trigger_report ex_stamp ex_ser (PStr (s2l "ev")) (s2l "/") ex_bin_args)).
+Proof. eexists. eexists. split; [vm_compute; reflexivity|]. vm_compute. reflexivity. Qed.
+
+Theorem binary_event_delivered :
+  (* plain: the handler runs *)
+  trigger_event ex_app_cfg (PStr (s2l "ev")) (s2l "/") ex_bin_args ex_state2
+    = (ex_state2, [Call 1 ex_bin_args], Ok (Some (PStr (s2l "ok")))) /\
+  (* wrapped: same state, same result, same effects for the application ... *)
+  transparent [s2l "e9"] (fun s => s = ex_state2)
+    (trigger_event ex_app_cfg (PStr (s2l "ev")) (s2l "/") ex_bin_args)
+    (w_trigger_event ex_app_cfg ex_adm ex_stamp ex_ser (PStr (s2l "ev")) (s2l "/") ex_bin_args) /\
+  (* ... and the admin receives one BINARY_EVENT frame (type 5, two attachments) plus the two attachments *)
+  (let effs := snd (fst (w_trigger_event ex_app_cfg ex_adm ex_stamp ex_ser (PStr (s2l "ev")) (s2l "/") ex_bin_args ex_state2)) in
+   List.length effs = 4%nat /\
+   match effs with
+   | Out e (PStr (t :: n :: _)) :: Out _ (PBytes b1) :: Out _ (PBytes b2) :: Call 1 a :: nil =>
+       e = s2l "e9" /\ t = 53 /\ n = 50 /\ b1 = [1] ++ [2] /\ b2 = [255] /\ a = ex_bin_args
+   | _ => False
+   end).
+Proof.
+  split; [vm_compute; reflexivity|]. split.
+  - intros s ->.
+    apply (trigger_event_transparent ex_app_cfg ex_adm ex_stamp ex_ser [s2l "e9"] _ _ _ ex_binary_report_encodable).
+    apply ex_isolated2.
+  - vm_compute. repeat split; reflexivity.
 Qed.
